@@ -155,13 +155,31 @@ def run_case(kind, p):
     with warnings.catch_warnings():
         warnings.simplefilter("ignore")
         if kind == "builtin":
-            pat = impl.pattern_from(p["pattern"])
             shape = tuple(p["shape"])
+            first = None
+            if p.get("neighbour"):
+                # another pattern object (same class, same or nearby parameters) is used and has its own arrays -- e.g. the radius
+                # map of a RadialGradientBackgroundSubtraction, which "someone may have changed" -- distorted in place before
+                # the pattern under test is even created: patterns are separate objects
+                first = impl.pattern_from(p["pattern"]).get_mask(shape)
+                q_ = impl.pattern_from(p["neighbour"])
+                q_.get_mask(shape)
+                for v_ in list(vars(q_).values()):
+                    if isinstance(v_, np.ndarray) and v_.dtype.kind == "f" and v_.ndim >= 1 and v_.size:
+                        v_[..., : max(1, v_.shape[-1] // 2)] *= 1.5
+                        v_ += 0.125
+                q_.get_mask(shape)
+                q_.get_template(shape)
+            pat = impl.pattern_from(p["pattern"])
             # the same object may have been asked for other shapes before ("re-queried for different shapes in any order")
             for s_ in p.get("prior_shapes", []):
                 pat.get_mask(tuple(s_))
                 pat.get_template(tuple(s_))
             m = pat.get_mask(shape)
+            if first is not None and (first.shape != m.shape or not np.array_equal(first, m, equal_nan=True)):
+                msgs.append(f"{p['pattern']['kind']}{p['pattern']}: get_mask{shape} of a new pattern object changed after ANOTHER "
+                            f"pattern object {p['neighbour']} had its arrays modified in place (max difference "
+                            f"{np.nanmax(np.abs(first - m)) if first.shape == m.shape else 'shape'})")
             if p.get("prior_shapes"):
                 fresh = impl.pattern_from(p["pattern"])
                 fm = fresh.get_mask(shape)
@@ -328,6 +346,15 @@ def search(ctx, boost=1, focus=()):
         elif k % 3 == 2:  # an earlier query for a larger (even / odd) shape that contains this one
             p["prior_shapes"] = [[shape[0] + 2 * int(rng.integers(1, 6)) + int(rng.integers(0, 2)),
                                   shape[1] + 2 * int(rng.integers(1, 6)) + int(rng.integers(0, 2))]]
+        if k % 5 == 3:
+            # a neighbouring object of the same class: identical parameters, or the same integer bounding size
+            nb = dict(pat)
+            if k % 2 and "radius_outer" in pat:
+                top = float(np.ceil(max(pat["radius"], pat["radius_outer"])))
+                nb["radius_outer"] = float(max(pat["radius"] + 0.01, min(top, pat["radius_outer"] + 0.3)))
+                nb["search"] = max(pat["search"], nb["radius_outer"])
+            p["neighbour"] = nb
+            ctx.count("neighbour_object")
         msgs = run_case("builtin", p)
         ctx.oracle_case("builtin", p, msgs, key=classify("builtin", p, msgs) if msgs else None,
                         nontrivial=(shape[0] % 2 == 1 or shape[0] != shape[1] or pat["radius"] != int(pat["radius"])))
